@@ -250,6 +250,7 @@ structure SInv (R : List Chip) (child : Chip) (childChips : List Chip) (st : Rep
   lastKey : st.last ∈ st.f.keys
   anc : ∀ x, Below st.f x st.last → x ≠ child ∧ x ∉ rem.map (·.2)
   memKeys : ∀ e, e ∈ rem → childChips.contains e.2 = true → e.2 ∈ st.f.keys
+  fresh : ∀ e, e ∈ rem → childChips.contains e.2 = false → e.2 ∉ st.f.keys
 
 theorem repairStep_fixed (child : Chip) (childChips : List Chip) (st : RepairState) (e : Nat × Chip) :
     repairStep false child childChips st e =
@@ -283,7 +284,7 @@ theorem sinv_hang {R : List Chip} {child : Chip} {childChips : List Chip} {st : 
     · exact h
     · exact absurd h hnb
   have hedge : Edge (g.addChild st.last (st.lastDir, c)) st.last (st.lastDir, c) := edge_addChild_new hlastg
-  refine ⟨wf_addEdge hw st.lastDir gnp hnb, ?_, ?_, ?_, ?_, ?_, ?_⟩
+  refine ⟨wf_addEdge hw st.lastDir gnp hnb, ?_, ?_, ?_, ?_, ?_, ?_, ?_⟩
   · intro q k he
     rw [keys_addChild]
     rcases edge_addChild_inv he with he | ⟨rfl, rfl⟩
@@ -325,6 +326,14 @@ theorem sinv_hang {R : List Chip} {child : Chip} {childChips : List Chip} {st : 
     show e.2 ∈ (g.addChild st.last (st.lastDir, c)).keys
     rw [keys_addChild]
     exact gkeys _ (hs.memKeys e (by simp [he]) hc)
+  · intro e he hc
+    show e.2 ∉ (g.addChild st.last (st.lastDir, c)).keys
+    rw [keys_addChild]
+    intro hk
+    simp only [List.map_cons, List.nodup_cons] at hnd
+    rcases gkeys' _ hk with hk | hk
+    · exact hs.fresh e (by simp [he]) hc hk
+    · exact hnd.1 (by rw [← hk]; exact List.mem_map_of_mem he)
 
 /-- **`repairStep` (fixed code) preserves the invariant**, whether the path chip is new ground or a node of
 the orphaned subtree (which is then cut from its parent and re-hung on the detour). -/
@@ -386,38 +395,125 @@ theorem repairFold_inv {R : List Chip} {child : Chip} {childChips : List Chip} (
       simp only [List.map_cons, List.nodup_cons] at hnd
       exact ih st1 st' hs1 hnd.2 (fun e he => hR e (by simp [he])) h
 
+/-- the A* sources of one repair = the entries outside the orphaned subtree -/
+theorem sources_spec {f : Forest} {rank : Chip → Nat} (hw : WF f rank) {child : Chip} {cc : List Chip}
+    (hcc : dfs f (f.length + 1) child = .ok cc) :
+    (∀ x, x ∈ f.keys.filter (fun c => !cc.contains c) ↔ x ∈ f.keys ∧ ¬ Below f child x) ∧
+    (f.keys.filter fun c => !cc.contains c).contains child = false := by
+  have hsound := dfs_sound _ _ _ hcc
+  have hcover := dfs_cover hw.keys _ _ _ hcc
+  have hsrc : ∀ x, x ∈ f.keys.filter (fun c => !cc.contains c) ↔ x ∈ f.keys ∧ ¬ Below f child x := by
+    intro x
+    simp only [List.mem_filter, Bool.not_eq_true', List.contains_eq_mem, decide_eq_false_iff_not]
+    constructor
+    · rintro ⟨a, b⟩; exact ⟨a, fun hb => b (hcover x hb)⟩
+    · rintro ⟨a, b⟩; exact ⟨a, fun hb => b (hsound x hb)⟩
+  refine ⟨hsrc, ?_⟩
+  rw [Bool.eq_false_iff]
+  intro hc
+  simp only [List.contains_iff_mem] at hc
+  exact ((hsrc _).1 hc).2 Below.refl
+
+/-- the state before the loop over the A* path satisfies the path-loop invariant -/
+theorem repair_init {m : Machine} {wrap : Bool} {f : Forest} {pc : Chip × Chip} {R : List Chip}
+    {cc : List Chip} {d0 : Nat} {c0 : Chip} {rest : List (Nat × Chip)}
+    (hi : RInv f R) (hchild : pc.2 ∈ R) (hlive : chipOk m pc.2 = true)
+    (hcc : dfs f (f.length + 1) pc.2 = .ok cc)
+    (hp : aStar pc.2 pc.1 (f.keys.filter fun c => !cc.contains c) m wrap = .ok ((d0, c0) :: rest)) :
+    SInv R pc.2 cc { f := f, last := c0, lastDir := d0 } rest ∧ (rest.map (·.2)).Nodup ∧
+      ∀ e, e ∈ rest → e.2 ∉ R := by
+  obtain ⟨rank, hw⟩ := hi.wf
+  have hsound := dfs_sound _ _ _ hcc
+  have hcover := dfs_cover hw.keys _ _ _ hcc
+  obtain ⟨hsrc, hns⟩ := sources_spec hw hcc
+  have hinr := chipOk_inRange hlive
+  have hpok := aStar_path _ _ _ _ _ _ hinr hp
+  obtain ⟨hpnd, hpsink⟩ := aStar_path_nodup _ _ _ _ _ _ hinr hns hp
+  simp only [pathOk, Bool.and_eq_true] at hpok
+  have hp2 := hpok.2
+  simp only [Bool.and_eq_true, List.contains_iff_mem, List.all_eq_true, Bool.not_eq_true',
+    Bool.eq_false_iff] at hp2
+  obtain ⟨hc0, hrest⟩ := hp2
+  have hc0' := (hsrc c0).1 hc0
+  simp only [List.map_cons, List.nodup_cons, List.mem_cons, not_or] at hpnd hpsink
+  -- chips of the rest of the path that have an entry are in the orphaned subtree
+  have hrestB : ∀ e, e ∈ rest → e.2 ∈ f.keys → Below f pc.2 e.2 := by
+    intro e he hk
+    apply Classical.byContradiction
+    intro hnb
+    exact hrest e he (List.contains_iff_mem.2 ((hsrc e.2).2 ⟨hk, hnb⟩))
+  have hrestR : ∀ e, e ∈ rest → e.2 ∉ R := by
+    intro e he hr
+    have hk := (hi.roots _ hr).1
+    have hb := hrestB e he hk
+    rcases below_tail hb with heq | ⟨p0, k0, _, hk0, hk0e⟩
+    · exact hpsink.2 (by rw [heq]; exact List.mem_map_of_mem he)
+    · exact (hi.roots _ hr).2 _ _ hk0 hk0e
+  refine ⟨⟨⟨rank, hw⟩, hi.closed, hi.roots, hi.conn, hc0'.1, ?_, ?_, ?_⟩, hpnd.2, hrestR⟩
+  · intro x hx
+    simp only at hx
+    refine ⟨?_, ?_⟩
+    · intro heq; subst heq; exact hc0'.2 hx
+    · intro hm
+      simp only [List.mem_map] at hm
+      obtain ⟨e, he, rfl⟩ := hm
+      rcases below_head hx with heq | ⟨k, hk, _⟩
+      · exact hpnd.1 (by rw [← heq]; exact List.mem_map_of_mem he)
+      · exact hc0'.2 (below_trans (hrestB e he (edge_key hk)) hx)
+  · intro e he hc
+    simp only [List.contains_iff_mem] at hc
+    exact below_key hi.closed (hi.roots _ hchild).1 (hsound _ hc)
+  · intro e he hc hk
+    have hb := hrestB e he hk
+    have := hcover _ hb
+    rw [← List.contains_iff_mem, hc] at this
+    simp at this
+
+/-- hanging the orphan below the end of the merged detour re-establishes the forest invariant -/
+theorem repair_finish {R R' : List Chip} {child : Chip} {cc : List Chip} {st' : RepairState}
+    (hchild : child ∈ R) (hR'n : R'.Nodup) (hR' : ∀ r, r ∈ R' ↔ r ∈ R ∧ r ≠ child)
+    (hfin : SInv R child cc st' []) : RInv (st'.f.addChild st'.last (st'.lastDir, child)) R' := by
+  obtain ⟨rank', hw'⟩ := hfin.wf
+  have hnb : ¬ Below st'.f child st'.last := fun hb => (hfin.anc _ hb).1 rfl
+  obtain ⟨r0, hr0, hr0b⟩ := hfin.conn _ hfin.lastKey
+  have hr0ne : r0 ≠ child := (hfin.anc _ hr0b).1
+  have hedge := edge_addChild_new (e := (st'.lastDir, child)) hfin.lastKey
+  refine ⟨wf_addEdge hw' st'.lastDir (hfin.roots _ hchild).2 hnb, ?_, hR'n, ?_, ?_⟩
+  · intro q k he
+    rw [keys_addChild]
+    rcases edge_addChild_inv he with he | ⟨rfl, rfl⟩
+    · exact hfin.closed _ _ he
+    · exact (hfin.roots _ hchild).1
+  · intro r hr
+    obtain ⟨hrR, hrne⟩ := (hR' r).1 hr
+    refine ⟨by rw [keys_addChild]; exact (hfin.roots r hrR).1, ?_⟩
+    intro q k he hk
+    rcases edge_addChild_inv he with he | ⟨rfl, rfl⟩
+    · exact (hfin.roots r hrR).2 _ _ he hk
+    · exact hrne hk.symm
+  · intro x hx
+    rw [keys_addChild] at hx
+    obtain ⟨r, hr, hb⟩ := hfin.conn x hx
+    by_cases hrc : r = child
+    · subst hrc
+      exact ⟨r0, (hR' r0).2 ⟨hr0, hr0ne⟩,
+        below_trans (Below.step (below_addChild_mono hr0b) hedge) (below_addChild_mono hb)⟩
+    · exact ⟨r, (hR' r).2 ⟨hr, hrc⟩, below_addChild_mono hb⟩
+
 /-- **One broken link.**  Reconnecting the orphan `pc.2` (a component root) keeps the forest invariant and
 removes the orphan from the set of component roots - for every A* outcome. -/
 theorem repairOne_inv {m : Machine} {wrap : Bool} {f f' : Forest} {pc : Chip × Chip}
     {path : List (Nat × Chip)} {R R' : List Chip} (hi : RInv f R) (hchild : pc.2 ∈ R)
     (hlive : chipOk m pc.2 = true) (hR'n : R'.Nodup) (hR' : ∀ r, r ∈ R' ↔ r ∈ R ∧ r ≠ pc.2)
     (h : repairOne m wrap false f pc = .ok (f', path)) : RInv f' R' := by
-  obtain ⟨rank, hw⟩ := hi.wf
   unfold repairOne at h
   simp only [bind, Except.bind] at h
   split at h
   · simp at h
   · rename_i cc hcc
-    have hsound := dfs_sound _ _ _ hcc
-    have hcover := dfs_cover hw.keys _ _ _ hcc
     split at h
     · simp at h
     · rename_i p hp
-      have hsrc : ∀ x, x ∈ f.keys.filter (fun c => !cc.contains c) ↔ x ∈ f.keys ∧ ¬ Below f pc.2 x := by
-        intro x
-        simp only [List.mem_filter, Bool.not_eq_true', List.contains_eq_mem, decide_eq_false_iff_not]
-        constructor
-        · rintro ⟨a, b⟩; exact ⟨a, fun hb => b (hcover x hb)⟩
-        · rintro ⟨a, b⟩; exact ⟨a, fun hb => b (hsound x hb)⟩
-      have hns : (f.keys.filter fun c => !cc.contains c).contains pc.2 = false := by
-        rw [Bool.eq_false_iff]
-        intro hc
-        simp only [List.contains_iff_mem] at hc
-        exact ((hsrc _).1 hc).2 Below.refl
-      have hinr := chipOk_inRange hlive
-      have hpok := aStar_path _ _ _ _ _ _ hinr hp
-      obtain ⟨hpnd, hpsink⟩ := aStar_path_nodup _ _ _ _ _ _ hinr hns hp
-      simp only [pathOk, Bool.and_eq_true] at hpok
       split at h
       · simp at h
       · rename_i d0 c0 rest
@@ -426,67 +522,8 @@ theorem repairOne_inv {m : Machine} {wrap : Bool} {f f' : Forest} {pc : Chip × 
         · rename_i st' hfold
           simp only [pure, Except.pure, Except.ok.injEq, Prod.mk.injEq] at h
           obtain ⟨rfl, _⟩ := h
-          have hp2 := hpok.2
-          simp only [Bool.and_eq_true, List.contains_iff_mem, List.all_eq_true, Bool.not_eq_true',
-            Bool.eq_false_iff] at hp2
-          obtain ⟨hc0, hrest⟩ := hp2
-          have hc0' := (hsrc c0).1 hc0
-          simp only [List.map_cons, List.nodup_cons, List.mem_cons, not_or] at hpnd hpsink
-          -- chips of the rest of the path that have an entry are in the orphaned subtree
-          have hrestB : ∀ e, e ∈ rest → e.2 ∈ f.keys → Below f pc.2 e.2 := by
-            intro e he hk
-            apply Classical.byContradiction
-            intro hnb
-            exact hrest e he (List.contains_iff_mem.2 ((hsrc e.2).2 ⟨hk, hnb⟩))
-          have hrestR : ∀ e, e ∈ rest → e.2 ∉ R := by
-            intro e he hr
-            have hk := (hi.roots _ hr).1
-            have hb := hrestB e he hk
-            rcases below_tail hb with heq | ⟨p0, k0, _, hk0, hk0e⟩
-            · exact hpsink.2 (by rw [heq]; exact List.mem_map_of_mem he)
-            · exact (hi.roots _ hr).2 _ _ hk0 hk0e
-          have hinit : SInv R pc.2 cc { f := f, last := c0, lastDir := d0 } rest := by
-            refine ⟨⟨rank, hw⟩, hi.closed, hi.roots, hi.conn, hc0'.1, ?_, ?_⟩
-            · intro x hx
-              simp only at hx
-              refine ⟨?_, ?_⟩
-              · intro heq; subst heq; exact hc0'.2 hx
-              · intro hm
-                simp only [List.mem_map] at hm
-                obtain ⟨e, he, rfl⟩ := hm
-                rcases below_head hx with heq | ⟨k, hk, _⟩
-                · exact hpnd.1 (by rw [← heq]; exact List.mem_map_of_mem he)
-                · exact hc0'.2 (below_trans (hrestB e he (edge_key hk)) hx)
-            · intro e he hc
-              simp only [List.contains_iff_mem] at hc
-              exact below_key hi.closed (hi.roots _ hchild).1 (hsound _ hc)
-          have hfin := repairFold_inv hchild rest _ st' hinit hpnd.2 hrestR hfold
-          obtain ⟨rank', hw'⟩ := hfin.wf
-          have hnb : ¬ Below st'.f pc.2 st'.last := fun hb => (hfin.anc _ hb).1 rfl
-          obtain ⟨r0, hr0, hr0b⟩ := hfin.conn _ hfin.lastKey
-          have hr0ne : r0 ≠ pc.2 := (hfin.anc _ hr0b).1
-          have hedge := edge_addChild_new (e := (st'.lastDir, pc.2)) hfin.lastKey
-          refine ⟨wf_addEdge hw' st'.lastDir (hfin.roots _ hchild).2 hnb, ?_, hR'n, ?_, ?_⟩
-          · intro q k he
-            rw [keys_addChild]
-            rcases edge_addChild_inv he with he | ⟨rfl, rfl⟩
-            · exact hfin.closed _ _ he
-            · exact (hfin.roots _ hchild).1
-          · intro r hr
-            obtain ⟨hrR, hrne⟩ := (hR' r).1 hr
-            refine ⟨by rw [keys_addChild]; exact (hfin.roots r hrR).1, ?_⟩
-            intro q k he hk
-            rcases edge_addChild_inv he with he | ⟨rfl, rfl⟩
-            · exact (hfin.roots r hrR).2 _ _ he hk
-            · exact hrne hk.symm
-          · intro x hx
-            rw [keys_addChild] at hx
-            obtain ⟨r, hr, hb⟩ := hfin.conn x hx
-            by_cases hrc : r = pc.2
-            · subst hrc
-              exact ⟨r0, (hR' r0).2 ⟨hr0, hr0ne⟩,
-                below_trans (Below.step (below_addChild_mono hr0b) hedge) (below_addChild_mono hb)⟩
-            · exact ⟨r, (hR' r).2 ⟨hr, hrc⟩, below_addChild_mono hb⟩
+          obtain ⟨hinit, hnd, hrestR⟩ := repair_init hi hchild hlive hcc hp
+          exact repair_finish hchild hR'n hR' (repairFold_inv hchild rest _ st' hinit hnd hrestR hfold)
 
 /-- **The whole repair loop**, for every processing order of the broken links and every A* outcome: from the
 invariant with component roots `root :: heads of the broken links` to the invariant with the single root. -/
